@@ -335,6 +335,12 @@ class ScalarType(DataType):
         if not super().__eq__(other):
             return False
 
+        if (isinstance(self.precision, DataSymbol) and
+                isinstance(other.precision, DataSymbol)):
+            # As for References, symbols are compared by name (TODO #1698)
+            # so that the type of a copied Literal is equal to the original.
+            return (self.precision.name == other.precision.name and
+                    self.intrinsic == other.intrinsic)
         return (self.precision == other.precision and
                 self.intrinsic == other.intrinsic)
 
